@@ -234,3 +234,27 @@ def open_attempt_below_take(case, mismatch):
 
 
 PREDICATES['open_attempt_below_take'] = open_attempt_below_take
+
+
+def windowwhen_every_handed_window_closed(case, mismatch):
+    """WindowWhen under concurrent inputs: the run deviates from every arrival order (a value or a window lost, a terminal overtaken), but every
+    window that was handed to the observer before the output terminated has been completed - a window left open for ever is NOT this finding
+    (that was windowwhen.window-opened-after-terminal, fixed)."""
+    evs = case.get('events') or []
+    handed, done, term, uns = set(), set(), False, False
+    for e in evs:
+        if e.get('e') == 'recv':
+            if e.get('k') == 'N' and e.get('v', 0) > 1000:
+                handed.add(e['v'] - 1000)
+            elif e.get('k') in ('IC', 'IE'):
+                done.add(e['v'])
+            elif e.get('k') in ('C', 'E'):
+                term = True
+        elif e.get('e') == 'unsubB':
+            uns = True
+        elif e.get('e') == 'hang':
+            return False
+    return uns or not term or not (handed - done)
+
+
+PREDICATES['windowwhen_every_handed_window_closed'] = windowwhen_every_handed_window_closed
